@@ -2,6 +2,7 @@ package main
 
 import (
 	"context"
+	"errors"
 	"fmt"
 	"sort"
 	"strings"
@@ -233,7 +234,18 @@ func (w *wrapped) Transition(ctx context.Context, transitions []*core.Change) ([
 		fmt.Sprintf("enter %s Transition n=%d", w.side(), len(transitions)))
 	w.j.mu.Unlock()
 	w.env.delay("transition")
-	results, problems, missing, err := w.inner.Transition(ctx, transitions)
+	var results []*core.Entry
+	var problems []*core.Problem
+	var missing bool
+	var err error
+	if w.env.failTransition(w.alpha) {
+		if w.env.script.FailTxAfter {
+			w.inner.Transition(ctx, transitions)
+		}
+		results, problems, missing, err = nil, nil, false, errors.New("injected: connection lost while applying changes")
+	} else {
+		results, problems, missing, err = w.inner.Transition(ctx, transitions)
+	}
 	w.j.mu.Lock()
 	ritems := make([]string, len(results))
 	for i, r := range results {
